@@ -367,16 +367,38 @@ def run(ctx):
         ctx.case('classifier', nontrivial_key=('clf', k), sample=dict(classes=kc, shape=[nr, nv + 1]))
         ctx.count('classifier')
         validate(ctx, root, nv + 1, dict(kind='c04', learner='learn_classifier', data=D.tolist()), 'learn_classifier', discrete=False)
-    # (v) XPC and ensemble-XPC
+    # (iv-b) degenerate shapes: a single training row, all rows identical (every column constant at the root task)
+    for k in range(8 if quick else 60):
+        rs = np.random.RandomState(np_seed(ctx.sub_rng('degenerate', k)))
+        nv = int(rs.randint(1, 5)); nr = int(rs.choice([1, 1, 5, 40]))
+        X = np.repeat(rs.randint(2, size=(1, nv)), nr, axis=0).astype(np.float32)
+        leaf = str(rs.choice(['mle', 'isotonic', 'binary-clt'])) if nv >= 2 else 'mle'
+        rep = dict(kind='c04', learner='learn_estimator', data=X.astype(int).tolist(), cfg=dict(learn_leaf=leaf, shape=[nr, nv], family='all-rows-identical'))
+        try:
+            root = learn_estimator(X, [Bernoulli] * nv, [[0, 1]] * nv, learn_leaf=leaf, split_rows='kmeans', split_cols='gvs', min_rows_slice=int(rs.choice([2, 30])),
+                                   random_state=int(rs.randint(1000)), verbose=False)
+        except Exception as ex:
+            ctx.count('learner-did-not-return:' + type(ex).__name__)
+            continue
+        ctx.case('degenerate', nontrivial_key=('degenerate', k), sample=rep['cfg'])
+        ctx.count('all-rows-identical-data')
+        validate(ctx, root, nv, rep, f'learn_estimator({leaf}) on {nr} identical row(s) x {nv} columns')
+        if ctx.n_new(with_input_only=True) >= 3:
+            return
+    # (v) XPC and ensemble-XPC; the last `n_corner` cases sit in the corner "one conjunction covers every column" (sd, Chow-Liu leaves):
+    # the leaves' own trees are drawn from an unseeded generator there, so several cases are needed to see a given outcome
     n_x = 40 if quick else 600
-    for k in range(n_x):
+    n_corner = 16 if quick else 120
+    for k in range(n_x + n_corner):
         rs = np.random.RandomState(np_seed(ctx.sub_rng('xpc', k)))
-        nv = int(rs.choice([2, 3, 4, 5, 8, 10])); nr = int(rs.choice([60, 150, 300]))
+        corner = k >= n_x
+        nv = int(rs.choice([3, 4, 5])) if corner else int(rs.choice([2, 3, 4, 5, 8, 10]))
+        nr = int(rs.choice([60, 150, 300]))
         X = binary_data(rs, nr, nv, fams[k % 4])
-        det = bool(rs.rand() < 0.4); sd = bool(rs.rand() < 0.6); use_clt = bool(det or rs.rand() < 0.7)
-        cfg = dict(det=det, sd=sd, min_part_inst=int(rs.choice([5, 10, 30])), conj_len=(nv if (k % 4 == 1 and nv <= 5) else int(rs.choice([1, 2, 3]))), arity=int(rs.choice([2, 3, 4])),
+        det = bool(rs.rand() < 0.4); sd = bool(corner or rs.rand() < 0.6); use_clt = bool(corner or det or rs.rand() < 0.7)
+        cfg = dict(det=det, sd=sd, min_part_inst=int(rs.choice([5, 10, 30])), conj_len=(nv if (corner or (k % 4 == 1 and nv <= 5)) else int(rs.choice([1, 2, 3]))), arity=int(rs.choice([2, 3, 4])),
                    use_clt=use_clt, random_seed=int(rs.randint(1000)))
-        ens = (k % 3 == 2)
+        ens = (k % 3 == 2) and not corner
         rep = dict(kind='c04', learner='learn_expc' if ens else 'learn_xpc', data=X.astype(int).tolist(), cfg=cfg)
         utils = None
         rec = XD.Recorder()
